@@ -1,31 +1,46 @@
 //! C03: secured messages are accepted only if authentic for that session and direction.
 //!
 //! One case = one receiving node (a real `Matter` whose session table is filled through the `verif`
-//! hook), a set of sending sessions (stand-alone real `Session` objects), datagrams produced by
-//! the real encoder (`Session::pre_send` + `Session::encode`, real AES-CCM of the rustcrypto
-//! backend) and deliveries of (mutated) datagrams to the real `decode_packet`.
+//! hook, with real fabrics holding group key sets), a set of sending sessions (stand-alone real
+//! `Session` objects), datagrams produced by the real encoder (`Session::pre_send` +
+//! `Session::encode`, real AES-CCM of the rustcrypto backend) and deliveries of (mutated) datagrams
+//! to the real `decode_packet` (`r`) or to the real `handle_rx_packet` = one step of `process_rx` (`h`).
 //!
-//! Lines (all numbers decimal unless marked hex):
+//! Lines (all numbers decimal unless marked hex). Addresses `<addr>`: `<n>` UDP [::1]:1000+n,
+//! `t<n>` TCP [::1]:1000+n, `b<n>` BTP, `v<n>` UDP 127.0.0.n:1000, `m<n>` UDP [::ffff:127.0.0.n]:1000.
+//!  `f <no>`                                  use pre-provisioned fabric `no`     => `ok idx=<fab idx> node=<hex> cfid=<hex>`
+//!  `ks f=<no> id=<n> e=<k|c:<k>>,..`         group key set (epoch key numbers; `c:<k>` = the first key
+//!                                            number >= 70000 whose group session id collides with key k's)
+//!                                                                                 => `ok e=<k,..> sid=<n,..>`
+//!  `gm f=<no> g=<gid> ks=<n>`                group -> key set mapping            => `ok`
+//!  `tick <ms>`                               advance the clock                   => `ok`
 //!  `s a=<addr> m=<N|P|C|G<gid>> ls=<lsid> ps=<psid> ln=<hex> pn=<hex|-> dk=<k> ek=<k> tx=<ctr> [ex=<id><I|R>,..] [expired=1]`
 //!        install the next session of the receiver's table            => `ok <summary> #<hash>`
-//!  `t <name> …same keys…`   a sending session                          => `ok`
-//!  `x <dg> t=<name> k=<pre|raw> pf= sid= sf= ctr= src=<hex> dst=<hex> xf= op= xid= pid= vid= ack= pl=<len> ps=<seed>`
-//!        encode one datagram (`pre`: the real pre_send stamps the plain header)  => `dg <hex>` | `err <Code>`
+//!  `t <name> …same keys… [gk=<fab no>:<epoch key no>]`   a sending session (`gk`: both keys = that
+//!        operational group key)                                        => `ok [sid=<group session id>]`
+//!  `x <dg> t=<name> k=<pre|raw> pf= sid=<n|@sender> sf= ctr= src=<hex> dst=<hex> xf= op= xid= pid= vid= ack= pl=<len> ps=<seed> [sc=<general>:<proto id>:<code>]`
+//!        encode one datagram (`pre`: the real pre_send stamps the plain header; `sc`: the payload is
+//!        that status report followed by the pattern)                  => `dg <hex>` | `err <Code>`
 //!  `r <dg> a=<addr> m=<none|flip:<bit>|trunc:<len>|ext:<hex>|xor:<off>:<hex>|hdr:<dg2>>`
-//!        deliver to the receiver => `<ok:new|ok:old|err:Code|panic> [h=<plain>/<proto> p=<hex>] S=<hash,..> [C<i>=<summary>]..`
+//!        deliver to `decode_packet` => `<ok:new|ok:old|err:Code|panic> [h=<plain>/<proto> p=<hex>] T=<now> S=<n>:<hash>,.. L=<last use>,.. G=<hash> [C<i>=<summary>].. [GS=<store>]`
+//!  `h <dg> a=<addr> m=…`   deliver to `handle_rx_packet` => `<deliver|consumed|fail:Code|panic> [h= p=] T= S= L= G= [C..] [GS=] [R=<reply>;..]`
+//!        reply = `<addr>|<key|->|<plain>/<proto>|<payload hex>`, key = `k<ek number>` / `g<fab no>.<epoch>` / `?`
 use crate::proto::{hex, parse_cases, unhex, Case, Out};
 use crate::rng::Rng;
 use crate::Args;
 
 use std::collections::HashMap;
 use std::fmt::Write as _;
-use std::net::{IpAddr, Ipv6Addr, SocketAddr};
+use std::net::{IpAddr, Ipv4Addr, Ipv6Addr, SocketAddr};
 use std::num::NonZeroU8;
 use std::panic::{catch_unwind, AssertUnwindSafe};
 
-use rs_matter::crypto::{test_only_crypto, Crypto};
+use embassy_time::{Duration, Instant, MockDriver};
+
+use rs_matter::crypto::{test_only_crypto, CanonAeadKey, Crypto};
 use rs_matter::dm::devices::test::{TEST_DEV_ATT, TEST_DEV_COMM, TEST_DEV_DET};
-use rs_matter::transport::network::Address;
+use rs_matter::error::Error;
+use rs_matter::transport::network::{Address, BtAddr, NetworkSend};
 use rs_matter::transport::packet::PacketHdr;
 use rs_matter::transport::plain_hdr::PlainHdr;
 use rs_matter::transport::proto_hdr::ProtoHdr;
@@ -34,16 +49,48 @@ use rs_matter::transport::TransportRunner;
 use rs_matter::utils::storage::{ParseBuf, WriteBuf};
 use rs_matter::Matter;
 
-fn addr(n: u64) -> Address {
-    Address::Udp(SocketAddr::new(IpAddr::V6(Ipv6Addr::LOCALHOST), 1000 + n as u16))
+#[path = "c03_group.rs"]
+mod group;
+use group::FabInfo;
+
+fn addr(spec: &str) -> Address {
+    let (kind, n) = match spec.chars().next() {
+        Some(c) if c.is_ascii_digit() => ('u', spec),
+        Some(c) => (c, &spec[1..]),
+        None => ('u', "0"),
+    };
+    let n: u64 = n.parse().unwrap_or(0);
+    match kind {
+        't' => Address::Tcp(SocketAddr::new(IpAddr::V6(Ipv6Addr::LOCALHOST), 1000 + n as u16)),
+        'b' => Address::Btp(BtAddr([n as u8, 0, 0, 0, 0, 0])),
+        'v' => Address::Udp(SocketAddr::new(IpAddr::V4(Ipv4Addr::new(127, 0, 0, n as u8)), 1000)),
+        'm' => Address::Udp(SocketAddr::new(IpAddr::V6(Ipv4Addr::new(127, 0, 0, n as u8).to_ipv6_mapped()), 1000)),
+        _ => Address::Udp(SocketAddr::new(IpAddr::V6(Ipv6Addr::LOCALHOST), 1000 + n as u16)),
+    }
 }
 
-/// key number `k`: first two bytes = k (LE), then a fixed pattern (distinct k => distinct keys)
+fn addr_str(a: &Address) -> String {
+    match a {
+        Address::Btp(b) => format!("b{}", b.0[0]),
+        Address::Tcp(sa) => format!("t{}", sa.port().wrapping_sub(1000)),
+        Address::Udp(sa) => match sa.ip() {
+            IpAddr::V4(v4) => format!("v{}", v4.octets()[3]),
+            IpAddr::V6(v6) => match v6.to_ipv4_mapped() {
+                Some(v4) => format!("m{}", v4.octets()[3]),
+                None => format!("{}", sa.port().wrapping_sub(1000)),
+            },
+        },
+    }
+}
+
+/// key number `k`: first four bytes = k (LE), then a fixed pattern (distinct k => distinct keys)
 fn key(k: u64) -> [u8; 16] {
     let mut b = [0u8; 16];
     b[0] = k as u8;
     b[1] = (k >> 8) as u8;
-    for i in 2..16 {
+    b[2] = (k >> 16) as u8;
+    b[3] = (k >> 24) as u8;
+    for i in 4..16 {
         b[i] = 0xA5u8.wrapping_add(i as u8 * 17);
     }
     b
@@ -76,6 +123,10 @@ fn num(m: &HashMap<String, String>, k: &str) -> u64 {
     m.get(k).and_then(|v| v.parse().ok()).unwrap_or(0)
 }
 
+fn st<'a>(m: &'a HashMap<String, String>, k: &str, d: &'a str) -> &'a str {
+    m.get(k).map(|s| s.as_str()).unwrap_or(d)
+}
+
 fn hexnum(m: &HashMap<String, String>, k: &str) -> Option<u64> {
     m.get(k).and_then(|v| if v == "-" { None } else { u64::from_str_radix(v, 16).ok() })
 }
@@ -89,15 +140,15 @@ fn mode_of(s: &str) -> SessionMode {
     }
 }
 
-fn install(sess: &mut Session, m: &HashMap<String, String>) {
+fn install(sess: &mut Session, m: &HashMap<String, String>, dk: &[u8; 16], ek: &[u8; 16]) {
     sess.verif_install(
         num(m, "ls") as u16,
         num(m, "ps") as u16,
         hexnum(m, "ln").unwrap_or(0),
         hexnum(m, "pn"),
-        &key(num(m, "dk")),
-        &key(num(m, "ek")),
-        mode_of(m.get("m").map(|s| s.as_str()).unwrap_or("N")),
+        dk,
+        ek,
+        mode_of(st(m, "m", "N")),
     );
     if let Some(ex) = m.get("ex") {
         for e in ex.split(',') {
@@ -113,8 +164,10 @@ fn install(sess: &mut Session, m: &HashMap<String, String>) {
     }
 }
 
-/// (summary, hash of the complete state rendering)
-fn snap(s: &Session, hide_tx: bool) -> (String, String) {
+/// (summary, hash of the complete state rendering). For a session created by the code under test
+/// the summary also names what the session is bound to:
+/// `id=<local sid>:<peer sid>:<local node hex>:<peer node hex|->:<N|P|C|G<fab>.<gid>>:<dec key>:<enc key>:<peer address>`
+fn snap(s: &Session, hide_tx: bool, keys: &[(String, [u8; 16], u64)]) -> (String, String) {
     let mut full = String::new();
     let _ = s.verif_snapshot(&mut full);
     let mut summary = full.split(" | ").next().unwrap_or("").replace(' ', ";");
@@ -122,58 +175,227 @@ fn snap(s: &Session, hide_tx: bool) -> (String, String) {
         // a session created by the code under test starts from a random send counter
         let parts: Vec<String> = summary.split(';').map(|p| if p.starts_with("tx=") { "tx=?".to_string() } else { p.to_string() }).collect();
         summary = parts.join(";");
+        let (_, lnode, dk, ek) = s.verif_view();
+        let kname = |k: &[u8; 16]| -> String {
+            if !s.is_encrypted() {
+                return "-".into();
+            }
+            keys.iter().find(|x| &x.1 == k).map(|x| x.0.clone()).unwrap_or("?".into())
+        };
+        let mode = match s.get_session_mode() {
+            SessionMode::PlainText => "N".to_string(),
+            SessionMode::Pase { .. } => "P".to_string(),
+            SessionMode::Case { .. } => "C".to_string(),
+            SessionMode::Group { fab_idx, group_id } => format!("G{}.{}", fab_idx, group_id),
+        };
+        let _ = write!(
+            summary,
+            ";id={}:{}:{:x}:{}:{}:{}:{}:{}",
+            s.get_local_sess_id(),
+            s.get_peer_sess_id(),
+            lnode,
+            s.get_peer_node_id().map(|n| format!("{:x}", n)).unwrap_or("-".into()),
+            mode,
+            kname(&dk),
+            kname(&ek),
+            addr_str(&s.get_peer_addr())
+        );
     }
     (summary, fnv(&full))
+}
+
+/// everything the harness sends is collected here
+struct Capture(Vec<(Address, Vec<u8>)>);
+
+impl NetworkSend for Capture {
+    async fn send_to(&mut self, data: &[u8], addr: Address) -> Result<(), Error> {
+        self.0.push((addr, data.to_vec()));
+        Ok(())
+    }
 }
 
 struct World<'a, C: Crypto> {
     matter: &'a Matter<'a>,
     crypto: &'a C,
-    installed: usize,
+    fabs: &'a [FabInfo],
+    /// unique ids of the sessions installed by `s` ops (everything else was created by the code under test)
+    installed: Vec<u32>,
+    /// fabrics declared by `f` ops of this case
+    declared: Vec<u64>,
+    /// unique session id -> ordinal of first appearance in this case
+    ords: HashMap<u32, usize>,
     senders: HashMap<String, Session>,
+    sender_sid: HashMap<String, u16>,
     dgs: HashMap<String, Vec<u8>>,
-    prev: Vec<String>,
+    prev: HashMap<usize, String>,
+    prev_g: String,
+    /// keys a reply may be secured with: (name, key, node id in the nonce)
+    keys: Vec<(String, [u8; 16], u64)>,
+    /// (fabric no, sid) -> colliding epoch key number
+    coll: HashMap<(u64, u16), u64>,
+    t0: u64,
 }
 
 fn err_name(e: &rs_matter::error::Error) -> String {
     format!("{:?}", e.code())
 }
 
+fn now_ms() -> u64 {
+    Instant::now().as_millis()
+}
+
 impl<'a, C: Crypto> World<'a, C> {
     fn reset(&mut self) {
-        self.matter.with_state(|st| {
-            let ids: Vec<u32> = st.verif_sessions_mut().iter().map(|s| s.id()).collect();
-            for id in ids {
-                st.verif_sessions_mut().remove(id);
-            }
-        });
-        self.installed = 0;
+        self.matter.with_state(|st| st.verif_sessions_mut().reset());
+        for f in self.fabs {
+            group::clear_groups(self.matter, f);
+        }
+        self.installed.clear();
+        self.declared.clear();
+        self.ords.clear();
         self.senders.clear();
+        self.sender_sid.clear();
         self.dgs.clear();
         self.prev.clear();
+        self.keys.clear();
+        self.prev_g = self.gstore().1;
+        // every case starts at a time stamp > 0 that is strictly later than anything before
+        MockDriver::get().advance(Duration::from_millis(10));
+        self.t0 = now_ms();
     }
 
-    fn snapshots(&self) -> Vec<(String, String)> {
-        let installed = self.installed;
-        self.matter.with_state(|st| st.verif_sessions_mut().iter().enumerate().map(|(i, s)| snap(s, i >= installed)).collect())
+    fn ord(&mut self, id: u32) -> usize {
+        let n = self.ords.len();
+        *self.ords.entry(id).or_insert(n)
+    }
+
+    /// per session in table order: (ordinal, summary, hash, last use relative to the case start)
+    fn snapshots(&mut self) -> Vec<(usize, String, String, u64)> {
+        let installed = self.installed.clone();
+        let t0 = self.t0;
+        let keys = self.keys.clone();
+        let raw: Vec<(u32, String, String, u64)> = self.matter.with_state(|st| {
+            st.verif_sessions_mut()
+                .iter()
+                .map(|s| {
+                    let (a, b) = snap(s, !installed.contains(&s.id()), &keys);
+                    (s.id(), a, b, s.verif_last_use_ms().saturating_sub(t0))
+                })
+                .collect()
+        });
+        raw.into_iter().map(|(id, a, b, lu)| (self.ord(id), a, b, lu)).collect()
+    }
+
+    /// (summary, hash) of the group counter store
+    fn gstore(&self) -> (String, String) {
+        let mut s = String::new();
+        self.matter.with_state(|st| {
+            let _ = st.verif_sessions_mut().verif_group_ctr_snapshot(&mut s);
+        });
+        let h = fnv(&s);
+        (s.replace(' ', ";"), h)
+    }
+
+    fn fab(&self, m: &HashMap<String, String>) -> Option<(u64, FabInfo)> {
+        let no = num(m, "f");
+        if !self.declared.contains(&no) {
+            return None;
+        }
+        self.fabs.get(no as usize).map(|f| (no, *f))
+    }
+
+    fn op_f(&mut self, no: &str) -> String {
+        match no.parse::<usize>().ok().and_then(|n| self.fabs.get(n)) {
+            Some(f) => {
+                self.declared.push(no.parse().unwrap_or(0));
+                format!("ok idx={} node={:x} cfid={:x}", f.fab_idx, f.node, f.cfid)
+            }
+            None => "err NoFabric".into(),
+        }
+    }
+
+    fn op_ks(&mut self, m: &HashMap<String, String>) -> String {
+        let Some((no, f)) = self.fab(m) else {
+            return "err NoFabric".into();
+        };
+        let mut nums: Vec<u64> = Vec::new();
+        let mut sids: Vec<u16> = Vec::new();
+        for e in st(m, "e", "").split(',').filter(|e| !e.is_empty()) {
+            let k = if let Some(base) = e.strip_prefix("c:") {
+                // an epoch key whose operational key has the same 16-bit group session id as key `base`
+                let base: u64 = base.parse().unwrap_or(0);
+                let Ok((_, want)) = group::derive(self.crypto, &key(base), f.cfid) else {
+                    return "err Derive".into();
+                };
+                if let Some(k) = self.coll.get(&(no, want)) {
+                    *k
+                } else {
+                    let mut found = None;
+                    for k in 70_000u64..70_000 + 2_000_000 {
+                        if let Ok((_, sid)) = group::derive(self.crypto, &key(k), f.cfid) {
+                            if sid == want {
+                                found = Some(k);
+                                break;
+                            }
+                        }
+                    }
+                    let Some(k) = found else {
+                        return "err NoCollision".into();
+                    };
+                    self.coll.insert((no, want), k);
+                    k
+                }
+            } else {
+                e.parse().unwrap_or(0)
+            };
+            match group::derive(self.crypto, &key(k), f.cfid) {
+                Ok((op, sid)) => {
+                    nums.push(k);
+                    sids.push(sid);
+                    self.keys.push((format!("g{}.{}", no, k), op, f.node));
+                }
+                Err(e) => return format!("err {}", err_name(&e)),
+            }
+        }
+        let epochs: Vec<[u8; 16]> = nums.iter().map(|k| key(*k)).collect();
+        match group::key_set_add(self.matter, &f, num(m, "id") as u16, &epochs) {
+            Ok(()) => format!(
+                "ok e={} sid={}",
+                nums.iter().map(|k| k.to_string()).collect::<Vec<_>>().join(","),
+                sids.iter().map(|k| k.to_string()).collect::<Vec<_>>().join(",")
+            ),
+            Err(e) => format!("err {}", err_name(&e)),
+        }
+    }
+
+    fn op_gm(&mut self, m: &HashMap<String, String>) -> String {
+        let Some((_, f)) = self.fab(m) else {
+            return "err NoFabric".into();
+        };
+        match group::key_map_add(self.matter, &f, num(m, "g") as u16, num(m, "ks") as u16) {
+            Ok(()) => "ok".into(),
+            Err(e) => format!("err {}", err_name(&e)),
+        }
     }
 
     fn op_s(&mut self, m: &HashMap<String, String>) -> String {
         let r = self.matter.with_state(|st| {
-            let sess = st.verif_sessions_mut().add(num(m, "tx") as u32, false, addr(num(m, "a")), hexnum(m, "pn"), &TEST_DEV_DET);
+            let sess = st.verif_sessions_mut().add(num(m, "tx") as u32, false, addr(st_(m)), hexnum(m, "pn"), &TEST_DEV_DET);
             match sess {
                 Ok(sess) => {
-                    install(sess, m);
-                    let (a, b) = snap(sess, false);
-                    Ok((a, b))
+                    install(sess, m, &key(num(m, "dk")), &key(num(m, "ek")));
+                    let (a, b) = snap(sess, false, &[]);
+                    Ok((sess.id(), a, b))
                 }
                 Err(e) => Err(err_name(&e)),
             }
         });
         match r {
-            Ok((sum, h)) => {
-                self.installed += 1;
-                self.prev.push(h.clone());
+            Ok((id, sum, h)) => {
+                self.installed.push(id);
+                let o = self.ord(id);
+                self.prev.insert(o, h.clone());
+                self.keys.push((format!("k{}", num(m, "ek")), key(num(m, "ek")), hexnum(m, "ln").unwrap_or(0)));
                 format!("ok {} #{}", sum, h)
             }
             Err(e) => format!("err {}", e),
@@ -181,17 +403,41 @@ impl<'a, C: Crypto> World<'a, C> {
     }
 
     fn op_t(&mut self, name: &str, m: &HashMap<String, String>) -> String {
-        let mut s = Session::new(1000 + self.senders.len() as u32, num(m, "tx") as u32, false, addr(num(m, "a")), hexnum(m, "pn"), 300, 300, 4000);
-        install(&mut s, m);
+        let mut s = Session::new(1000 + self.senders.len() as u32, num(m, "tx") as u32, false, addr(st_(m)), hexnum(m, "pn"), 300, 300, 4000);
+        let mut out = "ok".to_string();
+        if let Some(gk) = m.get("gk") {
+            let (fno, k) = gk.split_once(':').unwrap_or(("0", "0"));
+            let Some(f) = fno.parse::<u64>().ok().filter(|n| self.declared.contains(n)).and_then(|n| self.fabs.get(n as usize)) else {
+                return "err NoFabric".into();
+            };
+            match group::derive(self.crypto, &key(k.parse().unwrap_or(0)), f.cfid) {
+                Ok((op, sid)) => {
+                    install(&mut s, m, &op, &op);
+                    self.sender_sid.insert(name.to_string(), sid);
+                    out = format!("ok sid={}", sid);
+                }
+                Err(e) => return format!("err {}", err_name(&e)),
+            }
+        } else {
+            install(&mut s, m, &key(num(m, "dk")), &key(num(m, "ek")));
+        }
         self.senders.insert(name.to_string(), s);
-        "ok".into()
+        out
     }
 
     fn op_x(&mut self, name: &str, m: &HashMap<String, String>) -> String {
-        let Some(sess) = self.senders.get_mut(m.get("t").map(|s| s.as_str()).unwrap_or("")) else {
+        let sid = match m.get("sid").map(|s| s.as_str()) {
+            Some(s) if s.starts_with('@') => match self.sender_sid.get(&s[1..]) {
+                Some(v) => *v,
+                None => return "skip".into(),
+            },
+            Some(s) => s.parse().unwrap_or(0),
+            None => 0,
+        };
+        let Some(sess) = self.senders.get_mut(st(m, "t", "")) else {
             return "skip".into();
         };
-        let plain = PlainHdr::verif_from_parts(num(m, "pf") as u8, num(m, "sid") as u16, num(m, "sf") as u8, num(m, "ctr") as u32, hexnum(m, "src").unwrap_or(0), hexnum(m, "dst").unwrap_or(0));
+        let plain = PlainHdr::verif_from_parts(num(m, "pf") as u8, sid, num(m, "sf") as u8, num(m, "ctr") as u32, hexnum(m, "src").unwrap_or(0), hexnum(m, "dst").unwrap_or(0));
         let proto = ProtoHdr::verif_from_parts(num(m, "xf") as u8, num(m, "op") as u8, num(m, "xid") as u16, num(m, "pid") as u16, num(m, "vid") as u16, num(m, "ack") as u32);
         let (Some(plain), Some(proto)) = (plain, proto) else {
             return "err BadFlags".into();
@@ -199,7 +445,16 @@ impl<'a, C: Crypto> World<'a, C> {
         let mut hdr = PacketHdr::new();
         hdr.plain = plain;
         hdr.proto = proto;
-        let pl = payload(num(m, "pl") as usize, num(m, "ps"));
+        let mut pl = Vec::new();
+        if let Some(sc) = m.get("sc") {
+            let v: Vec<u64> = sc.split(':').map(|x| x.parse().unwrap_or(0)).collect();
+            if v.len() == 3 {
+                pl.extend_from_slice(&(v[0] as u16).to_le_bytes());
+                pl.extend_from_slice(&(v[1] as u32).to_le_bytes());
+                pl.extend_from_slice(&(v[2] as u16).to_le_bytes());
+            }
+        }
+        pl.extend_from_slice(&payload(num(m, "pl") as usize, num(m, "ps")));
         let pre = m.get("k").map(|s| s == "pre").unwrap_or(false);
         let crypto = self.crypto;
         let r = catch_unwind(AssertUnwindSafe(|| -> Result<Vec<u8>, String> {
@@ -270,29 +525,68 @@ impl<'a, C: Crypto> World<'a, C> {
         Some(d)
     }
 
-    fn op_r(&mut self, name: &str, m: &HashMap<String, String>, out: &mut Out) -> String {
+    fn hdr_str(hdr: &PacketHdr) -> String {
+        let p = hdr.plain.verif_parts();
+        let x = hdr.proto.verif_parts();
+        format!("{}:{}:{}:{}:{:x}:{:x}/{}:{}:{}:{}:{}:{}", p.0, p.1, p.2, p.3, p.4, p.5, x.0, x.1, x.2, x.3, x.4, x.5)
+    }
+
+    /// `<addr>|<key>|<plain>/<proto>|<payload>` of one datagram the node sent
+    fn render_reply(&self, to: &Address, data: &[u8]) -> String {
+        let mut c = data.to_vec();
+        let mut hdr = PacketHdr::new();
+        {
+            let mut pb = ParseBuf::new(&mut c);
+            if hdr.plain.decode(&mut pb).is_err() {
+                return format!("{}|?|unparsable|{}", addr_str(to), hex(data));
+            }
+            if !hdr.plain.is_encrypted() {
+                return match hdr.decode_remaining(self.crypto, None, 0, &mut pb) {
+                    Ok(()) => format!("{}|-|{}|{}", addr_str(to), Self::hdr_str(&hdr), hex(pb.as_slice())),
+                    Err(_) => format!("{}|-|unparsable|{}", addr_str(to), hex(data)),
+                };
+            }
+        }
+        for (name, k, node) in &self.keys {
+            let mut c = data.to_vec();
+            let mut pb = ParseBuf::new(&mut c);
+            let mut hdr = PacketHdr::new();
+            if hdr.plain.decode(&mut pb).is_err() {
+                continue;
+            }
+            let mut ck = CanonAeadKey::new();
+            ck.load_from_array(k);
+            if hdr.decode_remaining(self.crypto, Some(ck.reference()), *node, &mut pb).is_ok() {
+                return format!("{}|{}|{}|{}", addr_str(to), name, Self::hdr_str(&hdr), hex(pb.as_slice()));
+            }
+        }
+        let p = hdr.plain.verif_parts();
+        format!("{}|?|{}:{}:{}:{}:{:x}:{:x}/?|-", addr_str(to), p.0, p.1, p.2, p.3, p.4, p.5)
+    }
+
+    fn op_r(&mut self, full: bool, name: &str, m: &HashMap<String, String>, out: &mut Out) -> String {
         let Some(d) = self.dgs.get(name) else {
             return "skip".into();
         };
-        let Some(d) = self.mutate(d, m.get("m").map(|s| s.as_str()).unwrap_or("none")) else {
+        let Some(d) = self.mutate(d, st(m, "m", "none")) else {
             return "skip".into();
         };
         let runner = TransportRunner::new(self.matter, self.crypto);
-        let from = addr(num(m, "a"));
+        let from = addr(st_(m));
+        let mut cap = Capture(Vec::new());
         let r = catch_unwind(AssertUnwindSafe(|| {
-            runner.verif_decode_datagram(from, &d, |res, hdr, pl| match res {
-                Ok(new) => {
-                    let p = hdr.plain.verif_parts();
-                    let x = hdr.proto.verif_parts();
-                    format!(
-                        "ok:{} h={}:{}:{}:{}:{:x}:{:x}/{}:{}:{}:{}:{}:{} p={}",
-                        if new { "new" } else { "old" },
-                        p.0, p.1, p.2, p.3, p.4, p.5, x.0, x.1, x.2, x.3, x.4, x.5,
-                        hex(pl)
-                    )
-                }
-                Err(e) => format!("err:{}", err_name(&e)),
-            })
+            if full {
+                embassy_futures::block_on(runner.verif_handle_rx_datagram(from, &d, &mut cap, |res, hdr, pl| match res {
+                    Ok(true) => format!("deliver h={} p={}", Self::hdr_str(hdr), hex(pl)),
+                    Ok(false) => "consumed".to_string(),
+                    Err(e) => format!("fail:{}", err_name(&e)),
+                }))
+            } else {
+                runner.verif_decode_datagram(from, &d, |res, hdr, pl| match res {
+                    Ok(new) => format!("ok:{} h={} p={}", if new { "new" } else { "old" }, Self::hdr_str(hdr), hex(pl)),
+                    Err(e) => format!("err:{}", err_name(&e)),
+                })
+            }
         }));
         let mut s = match r {
             Ok(Ok(s)) => s,
@@ -301,16 +595,38 @@ impl<'a, C: Crypto> World<'a, C> {
         };
         out.stat(&format!("res_{}", s.split_whitespace().next().unwrap_or("").replace(':', "_")), 1);
         let snaps = self.snapshots();
-        let hashes: Vec<String> = snaps.iter().map(|x| x.1.clone()).collect();
-        let _ = write!(s, " S={}", if hashes.is_empty() { "-".to_string() } else { hashes.join(",") });
-        for (i, (sum, h)) in snaps.iter().enumerate() {
-            if self.prev.get(i) != Some(h) {
+        let _ = write!(s, " T={}", now_ms().saturating_sub(self.t0));
+        let _ = write!(
+            s,
+            " S={}",
+            if snaps.is_empty() { "-".to_string() } else { snaps.iter().map(|x| format!("{}:{}", x.0, x.2)).collect::<Vec<_>>().join(",") }
+        );
+        let _ = write!(s, " L={}", if snaps.is_empty() { "-".to_string() } else { snaps.iter().map(|x| x.3.to_string()).collect::<Vec<_>>().join(",") });
+        let (gsum, gh) = self.gstore();
+        let _ = write!(s, " G={}", gh);
+        let mut now: HashMap<usize, String> = HashMap::new();
+        for (i, (o, sum, h, _)) in snaps.iter().enumerate() {
+            if self.prev.get(o) != Some(h) {
                 let _ = write!(s, " C{}={}", i, sum);
             }
+            now.insert(*o, h.clone());
         }
-        self.prev = hashes;
+        self.prev = now;
+        if gh != self.prev_g {
+            let _ = write!(s, " GS={}", gsum);
+            self.prev_g = gh;
+        }
+        if !cap.0.is_empty() {
+            out.stat("replies", cap.0.len() as u64);
+            let v: Vec<String> = cap.0.iter().map(|(a, d)| self.render_reply(a, d)).collect();
+            let _ = write!(s, " R={}", v.join(";"));
+        }
         s
     }
+}
+
+fn st_(m: &HashMap<String, String>) -> &str {
+    st(m, "a", "0")
 }
 
 fn run_case<C: Crypto>(w: &mut World<C>, out: &mut Out, case: &Case) {
@@ -321,14 +637,21 @@ fn run_case<C: Crypto>(w: &mut World<C>, out: &mut Out, case: &Case) {
         let m = kv(op);
         let mut words = op.split_whitespace();
         let o = match words.next().unwrap_or("") {
+            "f" => w.op_f(words.next().unwrap_or("")),
+            "ks" => w.op_ks(&m),
+            "gm" => w.op_gm(&m),
+            "tick" => {
+                MockDriver::get().advance(Duration::from_millis(words.next().and_then(|x| x.parse().ok()).unwrap_or(1)));
+                "ok".into()
+            }
             "s" => w.op_s(&m),
             "t" => w.op_t(words.next().unwrap_or(""), &m),
             "x" => w.op_x(words.next().unwrap_or(""), &m),
-            "r" => {
-                let o = w.op_r(words.next().unwrap_or(""), &m, out);
-                if o.starts_with("ok") {
+            k @ ("r" | "h") => {
+                let o = w.op_r(k == "h", words.next().unwrap_or(""), &m, out);
+                if o.starts_with("ok") || o.starts_with("deliver") {
                     acc = true
-                } else if o.starts_with("err") {
+                } else if o.starts_with("err") || o.starts_with("consumed") {
                     rej = true
                 }
                 o
@@ -346,7 +669,7 @@ fn run_case<C: Crypto>(w: &mut World<C>, out: &mut Out, case: &Case) {
 
 #[derive(Clone)]
 struct SessCfg {
-    a: u64,
+    a: String,
     m: String,
     ls: u64,
     ps: u64,
@@ -384,9 +707,9 @@ impl SessCfg {
         s
     }
     /// the peer's end of this session
-    fn mirror(&self, peer_addr: u64) -> SessCfg {
+    fn mirror(&self, peer_addr: &str) -> SessCfg {
         SessCfg {
-            a: peer_addr,
+            a: peer_addr.to_string(),
             m: self.m.clone(),
             ls: self.ps,
             ps: self.ls,
@@ -424,7 +747,7 @@ fn sid(r: &mut Rng) -> u64 {
 struct XSpec {
     k: &'static str,
     pf: u64,
-    sid: u64,
+    sid: String,
     sf: u64,
     ctr: u64,
     src: u64,
@@ -437,14 +760,22 @@ struct XSpec {
     ack: u64,
     pl: u64,
     ps: u64,
+    sc: Option<String>,
 }
 
 impl XSpec {
+    fn new(ps: u64) -> XSpec {
+        XSpec { k: "pre", pf: 0, sid: "0".into(), sf: 0, ctr: 0, src: 0, dst: 0, xf: 0, op: 0, xid: 0, pid: 0, vid: 0, ack: 0, pl: 0, ps, sc: None }
+    }
     fn line(&self, dg: &str, t: &str) -> String {
-        format!(
+        let mut s = format!(
             "x {} t={} k={} pf={} sid={} sf={} ctr={} src={:x} dst={:x} xf={} op={} xid={} pid={} vid={} ack={} pl={} ps={}",
             dg, t, self.k, self.pf, self.sid, self.sf, self.ctr, self.src, self.dst, self.xf, self.op, self.xid, self.pid, self.vid, self.ack, self.pl, self.ps
-        )
+        );
+        if let Some(sc) = &self.sc {
+            let _ = write!(s, " sc={}", sc);
+        }
+        s
     }
 }
 
@@ -520,10 +851,23 @@ fn gen_case(r: &mut Rng, thorough: bool, out: &mut Out) -> (String, Vec<String>)
         _ => "P".to_string(),
     };
     out.stat(&format!("mode_{}", &mode[..1]), 1);
-    let peer_addr = r.range(1, 3);
+    // address kind of the peer: mostly UDP; TCP / BTP (reliable transports), IPv4 and IPv4-mapped IPv6
+    let kind = match r.below(10) {
+        0 => "t",
+        1 => "b",
+        2 => "v",
+        3 => "m",
+        _ => "",
+    };
+    out.stat(&format!("addr_kind_{}", if kind.is_empty() { "udp6" } else { kind }), 1);
+    let peer_n = r.range(1, 3);
+    let peer_addr = format!("{}{}", kind, peer_n);
+    // the delivery entry point: `decode_packet` alone or the whole `handle_rx_packet`
+    let rk = if r.chance(1, 2) { "h" } else { "r" };
+    out.stat(&format!("entry_{}", rk), 1);
     // the receiver's session under test
     let mut rx = SessCfg {
-        a: peer_addr,
+        a: peer_addr.clone(),
         m: mode.clone(),
         ls: sid(r),
         ps: sid(r),
@@ -550,7 +894,7 @@ fn gen_case(r: &mut Rng, thorough: bool, out: &mut Out) -> (String, Vec<String>)
     let n_other = r.below(3);
     for j in 0..n_other {
         let mut o = SessCfg {
-            a: if r.chance(1, 2) { peer_addr } else { r.range(1, 3) },
+            a: if r.chance(1, 2) { peer_addr.clone() } else { format!("{}{}", *r.pick(&["", "", "t", "b", "v", "m"]), r.range(1, 3)) },
             m: (*r.pick(&["P", "C", "C", "N"])).to_string(),
             ls: if r.chance(1, 3) { rx.ls ^ (1 << r.below(16)) } else { sid(r) },
             ps: sid(r),
@@ -584,7 +928,7 @@ fn gen_case(r: &mut Rng, thorough: bool, out: &mut Out) -> (String, Vec<String>)
     out.stat(&format!("table_size_{}", table.len()), 1);
 
     // senders: the mirror, and the transplants
-    let good = rx.mirror(9);
+    let good = rx.mirror("9");
     ops.push(good.line("t good"));
     let mut senders: Vec<(&str, SessCfg)> = Vec::new();
     {
@@ -606,7 +950,7 @@ fn gen_case(r: &mut Rng, thorough: bool, out: &mut Out) -> (String, Vec<String>)
         if table.len() > 1 {
             // the mirror of another session of the table, but addressed to the session under test
             let o = &table[if pos == 0 { 1 } else { 0 }];
-            let mut s = o.mirror(9);
+            let mut s = o.mirror("9");
             s.ps = rx.ls;
             senders.push(("othersess", s));
         }
@@ -620,14 +964,19 @@ fn gen_case(r: &mut Rng, thorough: bool, out: &mut Out) -> (String, Vec<String>)
     let mut dgs: Vec<(String, u64)> = Vec::new(); // name, total length estimate
     let mut next_ctr = ctr_val(r).min(0xFFFF_FF00);
     for i in 0..n_dg {
-        let mut x = XSpec { k: "pre", pf: 0, sid: 0, sf: 0, ctr: 0, src: 0, dst: 0, xf: 0, op: 0, xid: 0, pid: 0, vid: 0, ack: 0, pl: 0, ps: r.below(1000) };
+        let mut x = XSpec::new(r.below(1000));
         proto_part(r, &mut x, out);
         x.pl = payload_len(r, thorough, out);
+        if x.op == 0x40 && r.chance(3, 4) {
+            // a status report: CloseSession and near misses (other code, other protocol id, no `GeneralCode`)
+            x.sc = Some((*r.pick(&["0:0:3", "0:0:3", "0:0:5", "17:0:3", "0:1:3", "1:0:3", "8:0:4"])).to_string());
+            out.stat("status_report_payload", 1);
+        }
         let is_group = mode.starts_with('G');
         if is_group || r.chance(1, 2) {
             // header shape chosen here, not by pre_send
             x.k = "raw";
-            x.sid = good.ps;
+            x.sid = good.ps.to_string();
             x.ctr = next_ctr;
             next_ctr += r.range(1, 3);
             let mut pf = 0u64;
@@ -689,39 +1038,57 @@ fn gen_case(r: &mut Rng, thorough: bool, out: &mut Out) -> (String, Vec<String>)
     let exhaustive = est0 <= 120 || thorough;
     if exhaustive {
         for b in 0..max_bits {
-            ops.push(format!("r {} a={} m=flip:{}", d0, peer_addr, b));
+            ops.push(format!("{} {} a={} m=flip:{}", rk, d0, peer_addr, b));
         }
         out.stat("flips_exhaustive_cases", 1);
     } else {
         // long datagram: every header / protocol-header / tag bit, a sample of the payload bits
         for b in 0..(40 * 8) {
-            ops.push(format!("r {} a={} m=flip:{}", d0, peer_addr, b));
+            ops.push(format!("{} {} a={} m=flip:{}", rk, d0, peer_addr, b));
         }
         for _ in 0..200 {
-            ops.push(format!("r {} a={} m=flip:{}", d0, peer_addr, r.below(max_bits)));
+            ops.push(format!("{} {} a={} m=flip:{}", rk, d0, peer_addr, r.below(max_bits)));
         }
         for b in (est0.saturating_sub(60) * 8)..max_bits {
-            ops.push(format!("r {} a={} m=flip:{}", d0, peer_addr, b));
+            ops.push(format!("{} {} a={} m=flip:{}", rk, d0, peer_addr, b));
         }
     }
     // truncations and extensions
     for n in 0..(est0.min(70) + 1) {
-        ops.push(format!("r {} a={} m=trunc:{}", d0, peer_addr, n));
+        ops.push(format!("{} {} a={} m=trunc:{}", rk, d0, peer_addr, n));
     }
     for _ in 0..6 {
-        ops.push(format!("r {} a={} m=trunc:{}", d0, peer_addr, r.below(est0 + 4)));
+        ops.push(format!("{} {} a={} m=trunc:{}", rk, d0, peer_addr, r.below(est0 + 4)));
     }
     for e in ["00", "ff", "0000000000000000000000000000000000", "a5a5a5"] {
-        ops.push(format!("r {} a={} m=ext:{}", d0, peer_addr, e));
+        ops.push(format!("{} {} a={} m=ext:{}", rk, d0, peer_addr, e));
     }
     // from another address
-    ops.push(format!("r {} a={} m=none", d0, (peer_addr % 3) + 1));
+    // from other addresses: another port, the same port over another transport, and the canonical twin
+    // (IPv4 <-> IPv4-mapped IPv6: `is_for_rx` compares canonically, so this one must still be accepted)
+    ops.push(format!("{} {} a={}{} m=none", rk, d0, kind, (peer_n % 3) + 1));
+    let twin = match kind {
+        "t" => format!("{}", peer_n),
+        "b" => format!("t{}", peer_n),
+        "v" => format!("m{}", peer_n),
+        "m" => format!("v{}", peer_n),
+        _ => format!("t{}", peer_n),
+    };
+    ops.push(format!("{} {} a={} m=flip:{}", rk, d0, twin, r.below(64)));
+    if r.chance(1, 2) {
+        ops.push(format!("{} {} a={} m=none", rk, d0, twin));
+    }
     // transplants: same header fields, produced by a session that differs in one respect
     for (n, _) in &senders {
-        let mut x = XSpec { k: "pre", pf: 0, sid: 0, sf: 0, ctr: 0, src: 0, dst: 0, xf: 5, op: 2, xid: 77, pid: 1, vid: 0, ack: 0, pl: r.range(0, 20), ps: 3 };
+        let mut x = XSpec::new(3);
+        x.xf = 5;
+        x.op = 2;
+        x.xid = 77;
+        x.pid = 1;
+        x.pl = r.range(0, 20);
         if *n == "othermode" || mode.starts_with('G') {
             x.k = "raw";
-            x.sid = good.ps;
+            x.sid = good.ps.to_string();
             x.ctr = next_ctr;
             next_ctr += 1;
             x.pf = if mode.starts_with('G') { 6 } else { 0 };
@@ -731,7 +1098,7 @@ fn gen_case(r: &mut Rng, thorough: bool, out: &mut Out) -> (String, Vec<String>)
         }
         let name = format!("t_{}", n);
         ops.push(x.line(&name, n));
-        ops.push(format!("r {} a={} m=none", name, peer_addr));
+        ops.push(format!("{} {} a={} m=none", rk, name, peer_addr));
         out.stat(&format!("transplant_{}", n), 1);
     }
     // the clean datagrams (shuffled order now and then), each followed by a replay
@@ -740,23 +1107,24 @@ fn gen_case(r: &mut Rng, thorough: bool, out: &mut Out) -> (String, Vec<String>)
         order.reverse();
     }
     for i in &order {
-        ops.push(format!("r {} a={} m=none", dgs[*i].0, peer_addr));
+        ops.push(format!("{} {} a={} m=none", rk, dgs[*i].0, peer_addr));
         if r.chance(1, 2) {
-            ops.push(format!("r {} a={} m=none", dgs[*i].0, peer_addr));
+            ops.push(format!("{} {} a={} m=none", rk, dgs[*i].0, peer_addr));
         }
     }
     // header of one datagram in front of the cipher text of another
     if dgs.len() >= 2 {
-        ops.push(format!("r {} a={} m=hdr:{}", dgs[0].0, peer_addr, dgs[1].0));
-        ops.push(format!("r {} a={} m=hdr:{}", dgs[1].0, peer_addr, dgs[0].0));
+        ops.push(format!("{} {} a={} m=hdr:{}", rk, dgs[0].0, peer_addr, dgs[1].0));
+        ops.push(format!("{} {} a={} m=hdr:{}", rk, dgs[1].0, peer_addr, dgs[0].0));
     }
     // a fresh datagram, flipped on the now used session (sample), then delivered
     {
-        let mut x = XSpec { k: "pre", pf: 0, sid: 0, sf: 0, ctr: 0, src: 0, dst: 0, xf: 0, op: 0, xid: 0, pid: 0, vid: 0, ack: 0, pl: r.range(0, 24), ps: 9 };
+        let mut x = XSpec::new(9);
+        x.pl = r.range(0, 24);
         proto_part(r, &mut x, out);
         if mode.starts_with('G') {
             x.k = "raw";
-            x.sid = good.ps;
+            x.sid = good.ps.to_string();
             x.ctr = next_ctr + 5;
             x.pf = 6;
             x.src = good.ln;
@@ -765,16 +1133,331 @@ fn gen_case(r: &mut Rng, thorough: bool, out: &mut Out) -> (String, Vec<String>)
         }
         ops.push(x.line("late", "good"));
         for _ in 0..40 {
-            ops.push(format!("r late a={} m=flip:{}", peer_addr, r.below(60 * 8)));
+            ops.push(format!("{} late a={} m=flip:{}", rk, peer_addr, r.below(60 * 8)));
         }
-        ops.push(format!("r late a={} m=xor:{}:{}", peer_addr, r.below(40), hex(&r.bytes(3))));
-        ops.push(format!("r late a={} m=none", peer_addr));
-        ops.push(format!("r late a={} m=none", peer_addr));
+        ops.push(format!("{} late a={} m=xor:{}:{}", rk, peer_addr, r.below(40), hex(&r.bytes(3))));
+        ops.push(format!("{} late a={} m=none", rk, peer_addr));
+        ops.push(format!("{} late a={} m=none", rk, peer_addr));
     }
     ("m".to_string() + &mode[..1], ops)
 }
 
-const RULE: &str = "a case = one receiving node with 1-3 installed sessions (PASE/CASE/group/unsecured), sending sessions (the mirror of the session under test and transplants: other key, opposite direction, other source node id, other mode, mirror of another session of the table) and 1-3 datagrams encoded by the real pre_send/encode (header shapes: source/destination node id present or not, groupcast/unicast/both DSIZ bits, MSG_EXT/CONTROL/PRIVACY, ack/vendor/secex/reliable/initiator; payload 0..max); deliveries: every single-bit flip over the whole first datagram (exhaustive; long datagrams in the quick tier: all header/protocol-header/tag bits + a sample), every truncation up to 70 bytes, extensions, another peer address, the transplants, the clean datagrams, replays, header splices; non-trivial = at least one delivery accepted and one rejected; distinct = by operation list";
+/// all single-bit flips + truncations + extensions of one datagram, delivered from `a`
+fn push_mutations(ops: &mut Vec<String>, r: &mut Rng, rk: &str, dg: &str, a: &str, len: u64) {
+    for b in 0..(len * 8 + 8) {
+        ops.push(format!("{} {} a={} m=flip:{}", rk, dg, a, b));
+    }
+    for n in 0..(len + 1) {
+        ops.push(format!("{} {} a={} m=trunc:{}", rk, dg, a, n));
+    }
+    for e in ["00", "ff", "a5a5a5"] {
+        ops.push(format!("{} {} a={} m=ext:{}", rk, dg, a, e));
+    }
+    ops.push(format!("{} {} a={} m=xor:{}:{}", rk, dg, a, r.below(len), hex(&r.bytes(3))));
+}
+
+/// Group receive with real key material: the key-derivation branch of `get_or_create_for_group_rx`.
+fn gen_group_case(r: &mut Rng, out: &mut Out) -> (String, Vec<String>) {
+    let mut ops: Vec<String> = Vec::new();
+    let rk = if r.chance(1, 2) { "h" } else { "r" };
+    out.stat(&format!("entry_{}", rk), 1);
+    // fabrics 0 and 1 (different node ids), fabric 2 = a second fabric in which this node has fabric 0's node id
+    let three = r.chance(1, 3);
+    ops.push("f 0".into());
+    ops.push("f 1".into());
+    if three {
+        ops.push("f 2".into());
+    }
+    let mut ek = || 100 + r.below(60000);
+    let (e1, e2, e3, e4, e9) = (ek(), ek(), ek(), ek(), ek());
+    let g1 = r.range(1, 0xFFF0);
+    let g2 = if g1 == 7 { 8 } else { 7 };
+    let two_epochs = r.chance(1, 2);
+    let collide = r.chance(1, 8);
+    let same_epoch_other_fabric = r.chance(1, 2);
+    out.stat(if collide { "grp_sid_collision" } else { "grp_no_collision" }, 1);
+    ops.push(format!("ks f=0 id=1 e={}{}", e1, if two_epochs { format!(",{}", e2) } else { String::new() }));
+    ops.push(format!("ks f=0 id=2 e={}", if collide { format!("c:{}", e1) } else { e3.to_string() }));
+    ops.push(format!("gm f=0 g={} ks=1", g1));
+    ops.push(format!("gm f=0 g={} ks=2", g2));
+    let both_sets_for_g1 = r.chance(1, 5);
+    if both_sets_for_g1 {
+        ops.push(format!("gm f=0 g={} ks=2", g1));
+    }
+    let f1e = if same_epoch_other_fabric { e1 } else { e4 };
+    ops.push(format!("ks f=1 id=1 e={}", f1e));
+    ops.push(format!("gm f=1 g={} ks=1", g1));
+    if three {
+        ops.push(format!("ks f=2 id=5 e={}", e4));
+        ops.push(format!("gm f=2 g={} ks=5", g2));
+    }
+    // bystanders: ordinary secure sessions that must stay untouched
+    let peer = format!("{}{}", *r.pick(&["", "", "", "v", "m"]), r.range(1, 3));
+    let other_addr = format!("{}", r.range(4, 6));
+    let n_by = r.below(3);
+    for j in 0..n_by {
+        let c = SessCfg {
+            a: if r.chance(1, 2) { peer.clone() } else { other_addr.clone() },
+            m: (*r.pick(&["P", "C"])).to_string(),
+            ls: sid(r),
+            ps: sid(r),
+            ln: node_id(r),
+            pn: Some(node_id(r)),
+            dk: 10 + 2 * j,
+            ek: 11 + 2 * j,
+            tx: r.below(1 << 28),
+            ex: if r.chance(1, 2) { vec![(r.below(1 << 16), false)] } else { vec![] },
+            expired: false,
+        };
+        ops.push(c.line("s"));
+    }
+    let (s1, s2) = (node_id(r), node_id(r) ^ 0x10);
+    let sender = |name: &str, gk: Option<(u64, u64)>, ln: u64| -> String {
+        let mut l = format!("t {} a=9 m=G{} ls=0 ps=0 ln={:x} pn=- dk=40 ek=40 tx=0", name, g1, ln);
+        if let Some((f, e)) = gk {
+            let _ = write!(l, " gk={}:{}", f, e);
+        }
+        l
+    };
+    ops.push(sender("good", Some((0, e1)), s1));
+    ops.push(sender("good2", Some((0, if two_epochs { e2 } else { e1 })), s1));
+    ops.push(sender("g2key", Some((0, e3)), s1));
+    ops.push(sender("f1key", Some((1, f1e)), s1));
+    ops.push(sender("unknown", Some((0, e9)), s1));
+    ops.push(sender("othernode", Some((0, e1)), s2));
+    ops.push(sender("plainkey", None, s1));
+    // the datagram under test: data or control, group- or unicast-addressed (MCSP style)
+    let control = r.chance(1, 3);
+    let unicast = control && r.chance(1, 2);
+    out.stat(if control { if unicast { "grp_control_unicast" } else { "grp_control_group" } } else { "grp_data" }, 1);
+    let c0 = match r.below(4) {
+        0 => 0,
+        1 => 0xFFFF_FFF0,
+        _ => r.below(1 << 31),
+    };
+    let mk = |ctr: u64, sid: &str, dst_g: u64, src: u64, control: bool, unicast: bool, r: &mut Rng, fab_node: &str| -> XSpec {
+        let mut x = XSpec::new(r.below(1000));
+        x.k = "raw";
+        x.sid = sid.to_string();
+        x.ctr = ctr & 0xFFFF_FFFF;
+        x.src = src;
+        x.sf = if control { 0x41 } else { 0x01 };
+        if unicast {
+            x.pf = 4 | 1;
+            x.dst = u64::from_str_radix(fab_node, 16).unwrap_or(0);
+        } else {
+            x.pf = 4 | 2;
+            x.dst = dst_g;
+        }
+        x.xf = if r.chance(4, 5) { 1 } else { 0 } | if r.chance(1, 4) { 4 } else { 0 };
+        if control {
+            x.op = *r.pick(&[0u64, 1]);
+            x.pid = 0;
+        } else {
+            x.op = 8;
+            x.pid = 1;
+        }
+        x.xid = r.below(1 << 16);
+        x.pl = r.range(0, 12);
+        x
+    };
+    // the node ids of the pre-provisioned fabrics (see `fabrics()`)
+    let n0 = format!("{:x}", FAB_NODES[0]);
+    let x0 = mk(c0, "@good", g1, s1, control, unicast, r, &n0);
+    let len0 = 8 + 8 + if unicast { 8 } else { 2 } + 6 + x0.pl + 16;
+    ops.push(x0.line("d0", "good"));
+    // mutations first: nothing may move (no session, no counter store entry)
+    push_mutations(&mut ops, r, rk, "d0", &peer, len0);
+    // transplants: (name, sender, claimed session id, destination group, source in the header)
+    let tp: Vec<(&str, &str, &str, u64, u64)> = vec![
+        ("t_g2key_sidgood", "g2key", "@good", g1, s1),     // another group's key under the right session id
+        ("t_g2key_own", "g2key", "@g2key", g1, s1),        // another group's key, its own session id, addressed to g1
+        ("t_g2_legit", "g2key", "@g2key", g2, s1),         // ... addressed to its own group: legitimate
+        ("t_f1key_sidgood", "f1key", "@good", g1, s1),     // another fabric's key under the right session id
+        ("t_f1_legit", "f1key", "@f1key", g1, s1),         // legitimate for fabric 1
+        ("t_unknown_own", "unknown", "@unknown", g1, s1),  // an epoch key the node does not hold
+        ("t_unknown_sidgood", "unknown", "@good", g1, s1),
+        ("t_othernode", "othernode", "@good", g1, s1),     // encrypted by another source node, header says s1
+        ("t_srcfield", "good", "@good", g1, s2),           // header names another source node than the nonce
+        ("t_plainkey", "plainkey", "@good", g1, s1),       // not a group key at all
+        ("t_good2", "good2", "@good2", g1, s1),            // the key set's second epoch key: legitimate
+        ("t_wronggroup", "good", "@good", g2, s1),         // right key, addressed to the other group
+    ];
+    let mut ctr = c0 + 100;
+    for (name, snd, sidref, g, src) in &tp {
+        ctr += 1;
+        let x = mk(ctr, sidref, *g, *src, control, unicast && *g == g1, r, &n0);
+        ops.push(x.line(name, snd));
+        ops.push(format!("{} {} a={} m=none", rk, name, peer));
+        out.stat(&format!("transplant_{}", name), 1);
+    }
+    // the header of one in front of the cipher text of another
+    ops.push(format!("{} d0 a={} m=hdr:t_wronggroup", rk, peer));
+    ops.push(format!("{} t_g2_legit a={} m=hdr:d0", rk, peer));
+    // the clean datagram: accepted (new session), replayed from the same and from another address
+    if r.chance(1, 3) {
+        ops.push(format!("tick {}", r.range(1, 50)));
+    }
+    ops.push(format!("{} d0 a={} m=none", rk, peer));
+    ops.push(format!("{} d0 a={} m=none", rk, peer));
+    ops.push(format!("{} d0 a={} m=none", rk, other_addr));
+    // follow-ups of the same sender: next counter, an old counter, the same from elsewhere; all mutated first
+    let x1 = mk(c0 + 1, "@good", g1, s1, control, unicast, r, &n0);
+    let len1 = 8 + 8 + if unicast { 8 } else { 2 } + 6 + x1.pl + 16;
+    ops.push(x1.line("d1", "good"));
+    for _ in 0..60 {
+        ops.push(format!("{} d1 a={} m=flip:{}", rk, other_addr, r.below(len1 * 8)));
+    }
+    ops.push(format!("{} d1 a={} m=none", rk, other_addr));
+    ops.push(format!("{} d1 a={} m=none", rk, peer));
+    let x2 = mk(c0.wrapping_sub(40), "@good", g1, s1, control, unicast, r, &n0);
+    ops.push(x2.line("d_old", "good"));
+    ops.push(format!("{} d_old a={} m=none", rk, format!("{}", r.range(7, 8))));
+    // another sender node with the same key: its own counter space
+    let x3 = mk(c0, "@good", g1, s2, control, unicast, r, &n0);
+    ops.push(x3.line("d_s2", "othernode"));
+    ops.push(format!("{} d_s2 a={} m=flip:{}", rk, peer, r.below(len0 * 8)));
+    ops.push(format!("{} d_s2 a={} m=none", rk, peer));
+    ((if control { "gc" } else { "gd" }).to_string(), ops)
+}
+
+/// A full session table: what an (un)authentic datagram may evict.
+fn gen_full_table_case(r: &mut Rng, out: &mut Out) -> (String, Vec<String>) {
+    let mut ops: Vec<String> = Vec::new();
+    let rk = if r.chance(2, 3) { "h" } else { "r" };
+    out.stat(&format!("entry_{}", rk), 1);
+    ops.push("f 0".into());
+    let e1 = 100 + r.below(60000);
+    let g1 = r.range(1, 0xFFF0);
+    ops.push(format!("ks f=0 id=1 e={}", e1));
+    ops.push(format!("gm f=0 g={} ks=1", g1));
+    // 16 sessions = MAX_SESSIONS of the default feature set; which of them are idle (no exchange), expired, how old
+    let idle_mode = r.below(4); // 0: none idle, 1: one idle, 2: several idle, 3: several idle + one expired
+    out.stat(&format!("full_idle_mode_{}", idle_mode), 1);
+    let n = if r.chance(1, 6) { 15 } else { 16 };
+    let mut cfgs: Vec<SessCfg> = Vec::new();
+    for j in 0..n {
+        let idle = match idle_mode {
+            0 => false,
+            1 => j == 5,
+            _ => r.chance(1, 3),
+        };
+        let c = SessCfg {
+            a: format!("{}", 1 + j % 3),
+            m: (*r.pick(&["P", "C", "C", "N"])).to_string(),
+            ls: 100 + j,
+            ps: sid(r),
+            ln: node_id(r),
+            pn: Some(node_id(r)),
+            dk: 10 + 2 * j,
+            ek: 11 + 2 * j,
+            tx: r.below(1 << 28),
+            ex: if idle { vec![] } else { vec![(r.below(1 << 16), r.chance(1, 2))] },
+            expired: idle_mode == 3 && j == 9,
+        };
+        let mut c = c;
+        if c.m == "N" {
+            c.ls = 0;
+            c.ps = 0;
+        }
+        ops.push(c.line("s"));
+        if r.chance(1, 2) {
+            ops.push(format!("tick {}", r.range(1, 20)));
+        }
+        cfgs.push(c);
+    }
+    ops.push(format!("tick {}", r.range(1, 20)));
+    // a secure session of the table and its mirror: deliveries to it refresh its `last_use`
+    let tgt = cfgs.iter().position(|c| c.m != "N").unwrap_or(0);
+    let rx = cfgs[tgt].clone();
+    let good = rx.mirror("9");
+    ops.push(good.line("t good"));
+    let mut x = XSpec::new(5);
+    x.xf = 5;
+    x.op = 2;
+    x.xid = 4242;
+    x.pid = 1;
+    x.pl = 3;
+    ops.push(x.line("u0", "good"));
+    for _ in 0..20 {
+        ops.push(format!("{} u0 a={} m=flip:{}", rk, rx.a, r.below(33 * 8)));
+    }
+    // group sender
+    let s1 = node_id(r);
+    ops.push(format!("t grp a=9 m=G{} ls=0 ps=0 ln={:x} pn=- dk=40 ek=40 tx=0 gk=0:{}", g1, s1, e1));
+    let mut gx = XSpec::new(6);
+    gx.k = "raw";
+    gx.sid = "@grp".into();
+    gx.ctr = r.below(1 << 31);
+    gx.src = s1;
+    gx.sf = 1;
+    gx.pf = 6;
+    gx.dst = g1;
+    gx.xf = 1;
+    gx.op = 8;
+    gx.pid = 1;
+    gx.xid = 99;
+    gx.pl = 2;
+    ops.push(gx.line("g0", "grp"));
+    // an unsecured session request (PBKDFParamRequest / Sigma1) and an unsecured non-request
+    ops.push("t plain a=9 m=N ls=0 ps=0 ln=0 pn=- dk=0 ek=0 tx=0".to_string());
+    let mut px = XSpec::new(7);
+    px.k = "raw";
+    px.pf = if r.chance(3, 4) { 4 } else { 0 };
+    px.src = 0x7777;
+    px.ctr = r.below(1 << 31);
+    px.xf = if r.chance(1, 2) { 5 } else { 1 };
+    px.op = *r.pick(&[0x20u64, 0x30, 0x20, 0x22]);
+    px.pid = 0;
+    px.xid = 17;
+    px.pl = 8;
+    ops.push(px.line("p0", "plain"));
+    // order of events varies
+    let mut evs: Vec<String> = vec![
+        format!("{} g0 a=6 m=flip:{}", rk, r.below(40 * 8)),
+        format!("{} g0 a=6 m=none", rk),
+        format!("{} p0 a=7 m=none", rk),
+        format!("{} p0 a=7 m=flip:{}", rk, 8 * 8 + r.below(8)),
+        format!("{} u0 a={} m=none", rk, rx.a),
+        format!("tick {}", r.range(1, 9)),
+        format!("{} g0 a=5 m=none", rk),
+        format!("{} p0 a=8 m=none", rk),
+    ];
+    for i in (1..evs.len()).rev() {
+        let j = r.below(i as u64 + 1) as usize;
+        evs.swap(i, j);
+    }
+    ops.extend(evs);
+    ("full".to_string(), ops)
+}
+
+const RULE: &str = "three case families. (1) unicast: one receiving node with 1-3 installed sessions (PASE/CASE/group/unsecured) whose peer is a UDP (IPv6, IPv4, IPv4-mapped), TCP or BTP address, sending sessions (the mirror of the session under test and transplants: other key, opposite direction, other source node id, other mode, mirror of another session of the table) and 1-3 datagrams encoded by the real pre_send/encode (header shapes: source/destination node id present or not, groupcast/unicast/both DSIZ bits, MSG_EXT/CONTROL/PRIVACY, ack/vendor/secex/reliable/initiator; payload 0..max; status reports incl. CloseSession); deliveries to decode_packet (r) or to handle_rx_packet (h): every single-bit flip over the whole first datagram (exhaustive; long datagrams in the quick tier: all header/protocol-header/tag bits + a sample), every truncation up to 70 bytes, extensions, other peer addresses (other port, other transport, canonical twin), the transplants, the clean datagrams, replays, header splices. (2) group: a node with 2-3 real fabrics holding group key sets (1-2 epoch keys, two groups, optionally two key sets for one group, the same epoch key in two fabrics, colliding group session ids), group data / control / unicast-addressed control datagrams encrypted with the real operational keys: all single-bit flips, truncations, extensions, transplants between groups / fabrics / source nodes / unknown keys, header splices, then clean deliveries, replays from the same and other addresses, follow-up and old counters. (3) full table: 15-16 sessions (idle / busy / expired, aged by clock ticks) and authentic / mutated group messages, unsecured session requests and unicast datagrams in random order (eviction, Busy, NoSpaceSessions); non-trivial = at least one delivery accepted and one rejected; distinct = by operation list";
+
+/// node ids of the pre-provisioned fabrics 0..2 (fabric 2 shares fabric 0's node id)
+const FAB_NODES: [u64; 3] = [0x1111_0000_0000_00A0, 0x2222_0000_0000_00B0, 0x1111_0000_0000_00A0];
+
+fn fabrics<C: Crypto>(matter: &Matter<'_>, crypto: &C) -> Vec<FabInfo> {
+    FAB_NODES.iter().enumerate().map(|(i, n)| group::provision(matter, crypto, 1 + i as u64, *n).expect("fabric provisioning")).collect()
+}
+
+fn world<'a, C: Crypto>(matter: &'a Matter<'a>, crypto: &'a C, fabs: &'a [FabInfo]) -> World<'a, C> {
+    World {
+        matter,
+        crypto,
+        fabs,
+        installed: vec![],
+        declared: vec![],
+        ords: HashMap::new(),
+        senders: HashMap::new(),
+        sender_sid: HashMap::new(),
+        dgs: HashMap::new(),
+        prev: HashMap::new(),
+        prev_g: String::new(),
+        keys: vec![],
+        coll: HashMap::new(),
+        t0: 0,
+    }
+}
 
 pub fn gen(a: &Args) -> String {
     let mut r = Rng::new(a.seed);
@@ -782,11 +1465,16 @@ pub fn gen(a: &Args) -> String {
     out.buf.push_str(&format!("#rule {}\n", RULE));
     let matter = Matter::new(&TEST_DEV_DET, TEST_DEV_COMM, &TEST_DEV_ATT, 0);
     let crypto = test_only_crypto();
-    let mut w = World { matter: &matter, crypto: &crypto, installed: 0, senders: HashMap::new(), dgs: HashMap::new(), prev: vec![] };
+    let fabs = fabrics(&matter, &crypto);
+    let mut w = world(&matter, &crypto, &fabs);
     let n_cases = if a.thorough { 1500 } else { 160 };
     for id in 0..n_cases {
         let mut cr = r.fork();
-        let (kind, ops) = gen_case(&mut cr, a.thorough, &mut out);
+        let (kind, ops) = match id % 8 {
+            1 | 5 => gen_group_case(&mut cr, &mut out),
+            3 => gen_full_table_case(&mut cr, &mut out),
+            _ => gen_case(&mut cr, a.thorough, &mut out),
+        };
         run_case(&mut w, &mut out, &Case { id, kind, ops });
     }
     out.finish()
@@ -797,7 +1485,8 @@ pub fn replay(a: &Args) -> String {
     let mut out = Out::default();
     let matter = Matter::new(&TEST_DEV_DET, TEST_DEV_COMM, &TEST_DEV_ATT, 0);
     let crypto = test_only_crypto();
-    let mut w = World { matter: &matter, crypto: &crypto, installed: 0, senders: HashMap::new(), dgs: HashMap::new(), prev: vec![] };
+    let fabs = fabrics(&matter, &crypto);
+    let mut w = world(&matter, &crypto, &fabs);
     for c in parse_cases(&text) {
         run_case(&mut w, &mut out, &c);
     }
